@@ -34,14 +34,174 @@ def tt(x):
 
 
 def make_world(ex, shape, real):
-    return World(ex, shape["n"], nprio=len(shape["methods"]) + 2, real=real)
+    return World(ex, shape["n"], nprio=len(shape.get("methods") or shape.get("kwmethods") or shape["two"]) + 2, real=real)
 
 
 _MS = {}
 
 
+_KW = {}
+
+
+def make_run_kw(W, shape, known_active=None):
+    """keyword-only dispatch: f(x, *, scale) called as f(a, scale=b); non-applicable extras require a keyword that is not
+    supplied (`offset`), or declare no keyword at all"""
+    from ovld import Ovld
+
+    n = shape["n"]
+    methods = shape["kwmethods"]      # list of (x type, scale type)
+    M = len(methods)
+    key = repr(methods)
+    ms = _KW.get(key)
+    if ms is None:
+        def term(t):
+            return ("obj",) if t == n else ("K", t)
+        specs = [dict(pos=[("x", term(a), False)], kw=[("scale", term(b), False)]) for a, b in methods]
+        specs.append(dict(pos=[("x", ("obj",), False)], kw=[("offset", ("obj",), False), ("scale", ("obj",), True)]))   # needs offset
+        specs.append(dict(pos=[("x", ("obj",), False)], kw=[("offset", ("obj",), False)]))                            # needs offset only
+        ms = _KW[key] = MethodSet(specs)
+    perms = list(itertools.permutations(range(M)))
+    order.install()
+
+    def scenario(ctx, regorder, extras, extype):
+        hs, LOG, ns = ms.instantiate(W)
+        if extype is not None:
+            hs[M].__annotations__ = dict(hs[M].__annotations__, x=extype, scale=extype)
+        ov = Ovld()
+        seq = list(regorder)
+        if extras:
+            seq.insert(min(1, len(seq)), M)
+            seq.append(M + 1)
+        for m in seq:
+            ov.register(hs[m], priority=0)
+        a, b = W.inst[0], W.inst[1]
+        return full_outcome(lambda: ov.dispatch(a, scale=b), LOG)
+
+    def run(ctx):
+        order.MODE[0] = "canon"
+        try:
+            base = scenario(ctx, list(range(M)), False, None)
+            dim = ctx.choose("dim", 3)
+            p = ctx.choose("regperm", len(perms)) if dim == 0 else 0
+            extras = dim == 1
+            extype = W.K[ctx.choose("extype", n)] if extras else None
+            order.MODE[0] = "sym" if dim == 2 else "canon"
+            var = scenario(ctx, list(perms[p]), extras, extype)
+        finally:
+            order.MODE[0] = "canon"
+        same = base == var
+        info = dict(family="keyword-only", methods=methods, canonical=base, variant=var, regorder=list(perms[p]), extras=extras,
+                    extra_types=(extype.__name__ if extype is not None else None))
+        known = []
+        if not same and extras and KNOWN_LEVELS in (known_active if known_active is not None else runner.active_known_ids(PID)):
+            # the recorded integer-layer mechanism also applies per keyword: both outcomes must be rule-or-mechanism explained
+            idx = [(a, b) for a, b in methods]
+            rule = GRule(idx, (0, 1), [z3.IntVal(0)] * M, lambda t, c: W.rel(c, t), lambda t, u: W.rel(t, u))
+            ok = True
+            for out, with_extra in ((base, False), (var, True)):
+                regs0 = [sorted({a for a, _ in methods} | ({extype._idx} if with_extra else set())),
+                         sorted({b for _, b in methods} | ({extype._idx} if with_extra else set()))]
+                ch, term = out
+                if term[0] == "ret" and len(ch) == 1:
+                    ok = ok and (ctx.decide(rule.wins(ch[0])) or (ctx.decide(z3.Not(rule.any_win())) and levels_mechanism(ctx, rule, regs0, ch[0])))
+                elif term[0] == "AMB":
+                    ok = ok and ctx.decide(z3.And(rule.any_app(), z3.Not(rule.any_win())))
+                elif term[0] == "NOM":
+                    ok = ok and ctx.decide(z3.Not(rule.any_app()))
+                else:
+                    ok = False
+            known.append((KNOWN_LEVELS, ok))
+        return Verdict(same, known, info, [base[1][0], "extras" if extras else "noextras"], nontrivial=len(base[0]) >= 1)
+
+    return run
+
+
+_TWO = {}
+
+
+def make_run_two(W, shape, known_active=None):
+    """two dispatched positions, three methods: candidates can tie on the SUM of their per-position specificities while being pointwise
+    incomparable, so the grouping into resolution ranks must not depend on the order in which tied candidates are met.  Non-applicable extras:
+    a method of another arity whose first position carries a harness class, and one on an unrelated class."""
+    from ovld import Ovld
+
+    n = shape["n"]
+    methods = shape["two"]      # list of (x type, y type); index n = object
+    M = len(methods)
+    key = repr(methods)
+    ms = _TWO.get(key)
+    if ms is None:
+        def term(t):
+            return ("obj",) if t == n else ("K", t)
+        specs = [dict(pos=[("x", term(a), False), ("y", term(b), False)]) for a, b in methods]
+        specs.append(dict(pos=[("x", ("obj",), False), ("y", ("obj",), False), ("z", ("obj",), False)]))   # extra: other arity
+        specs.append(dict(pos=[("x", ("raw", "Z"), False), ("y", ("raw", "Z"), False)]))                     # extra: unrelated class
+        ms = _TWO[key] = MethodSet(specs)
+    perms = list(itertools.permutations(range(M)))
+    order.install()
+    from symx import kit
+
+    kit.RAW["Z"] = Z
+
+    def scenario(ctx, regorder, extras, extype):
+        hs, LOG, ns = ms.instantiate(W)
+        if extype is not None:
+            hs[M].__annotations__ = dict(hs[M].__annotations__, x=extype, y=extype)
+        ov = Ovld()
+        seq = list(regorder)
+        if extras:
+            seq.insert(min(1, len(seq)), M)
+            seq.append(M + 1)
+        for m in seq:
+            ov.register(hs[m], priority=0)
+        a, b = W.inst[shape["args"][0]], W.inst[shape["args"][1]]
+        return full_outcome(lambda: ov.dispatch(a, b), LOG)
+
+    def run(ctx):
+        order.MODE[0] = "canon"
+        try:
+            base = scenario(ctx, list(range(M)), False, None)
+            dim = ctx.choose("dim", 3)
+            p = ctx.choose("regperm", len(perms)) if dim == 0 else 0
+            extras = dim == 1
+            extype = W.K[ctx.choose("extype", n)] if extras else None
+            order.MODE[0] = "sym" if dim == 2 else "canon"
+            var = scenario(ctx, list(perms[p]), extras, extype)
+        finally:
+            order.MODE[0] = "canon"
+        same = base == var
+        info = dict(family="two positions", methods=methods, call=shape["args"], canonical=base, variant=var, regorder=list(perms[p]), extras=extras,
+                    extra_types=(extype.__name__ if extype is not None else None))
+        known = []
+        if not same and extras and KNOWN_LEVELS in (known_active if known_active is not None else runner.active_known_ids(PID)):
+            idx = [(a, b) for a, b in methods]
+            rule = GRule(idx, tuple(shape["args"]), [z3.IntVal(0)] * M, lambda t, c: W.rel(c, t), lambda t, u: W.rel(t, u))
+            ok = True
+            for out, with_extra in ((base, False), (var, True)):
+                regs0 = [sorted({a for a, _ in methods} | ({extype._idx} if with_extra else set())),
+                         sorted({b for _, b in methods} | ({extype._idx} if with_extra else set()))]
+                ch, term = out
+                if term[0] == "ret" and len(ch) == 1:
+                    ok = ok and (ctx.decide(rule.wins(ch[0])) or (ctx.decide(z3.Not(rule.any_win())) and levels_mechanism(ctx, rule, regs0, ch[0])))
+                elif term[0] == "AMB":
+                    ok = ok and ctx.decide(z3.And(rule.any_app(), z3.Not(rule.any_win())))
+                elif term[0] == "NOM":
+                    ok = ok and ctx.decide(z3.Not(rule.any_app()))
+                else:
+                    ok = False
+            known.append((KNOWN_LEVELS, ok))
+        return Verdict(same, known, info, [base[1][0], "extras" if extras else "noextras"], nontrivial=len(base[0]) >= 1)
+
+    return run
+
+
 def make_run(W, shape, known_active=None):
     from ovld import Ovld, typeorder
+
+    if shape.get("kwmethods"):
+        return make_run_kw(W, shape, known_active)
+    if shape.get("two"):
+        return make_run_two(W, shape, known_active)
 
     if known_active is None:
         known_active = runner.active_known_ids(PID)
@@ -172,12 +332,23 @@ def gen_shapes(tier, seed):
             if all(t[0] in ("K", "obj") for t in mt):
                 continue
             rich.append(dict(n=n, methods=list(mt), arg=0))
-    total = len(plain) + len(rich)
+    kwfam = []
+    for M in (1, 2):
+        for ms_ in itertools.product(itertools.product(range(n + 1), repeat=2), repeat=M):
+            if len(set(ms_)) == M:
+                kwfam.append(dict(n=n, kwmethods=[list(t) for t in ms_]))
+    twofam = []
+    pairs = list(itertools.product(range(n + 1), repeat=2))
+    for ms_ in itertools.combinations(pairs, 3):
+        twofam.append(dict(n=n, two=[list(t) for t in ms_], args=[0, 1]))
+    rng.shuffle(twofam)
+    total = len(plain) + len(rich) + len(kwfam) + len(twofam)
+    rng.shuffle(kwfam)
     rng.shuffle(rich)
     if tier == "quick":
-        shapes = plain + rich[:150]
+        shapes = plain + rich[:150] + kwfam[:40] + twofam[:60]
     else:
-        shapes = plain + rich[:260]
+        shapes = plain + rich[:260] + kwfam + twofam[:400]
         for _ in range(40):
             shapes.append(dict(n=4, methods=rng.sample([("K", i) for i in range(4)] + [("obj",)], 4), arg=0))
     for sh in shapes:
@@ -247,11 +418,13 @@ def main(tier, seed):
     results = runner.pmap("props.c06", "explore_shape", shapes, kw, chunksize=1)
     return runner.finish(
         PID, tier, seed, t0, results,
-        bounds=dict(classes=3, methods="2-3 distinct signatures (+2 non-applicable extras)", positions=1,
+        bounds=dict(classes=3, methods="2-3 distinct signatures (+2 non-applicable extras)", positions="1; a two-position family (3 methods over (Ki|object)^2, "
+                    "call (K0(), K1()): candidates tied on the sum of their specificities) and a keyword-only family",
                     set_order="every internal set of <= %d elements (typemap, mro, recode, core) iterates in the order of one symbolic "
                               "ranking of its elements (a stand-in for hash positions), shared by all sets; every ranking explored" % (4 if tier == "quick" else 6),
                     registration_order="every permutation of the distinct signatures",
-                    extras="one method of another arity (first position typed with any harness class) and one on an unrelated concrete class",
+                    extras="one method of another arity (first position typed with any harness class) and one on an unrelated concrete class; "
+                           "keyword-only family: methods requiring a keyword that the call does not supply",
                     priorities="all equal (quick) / unbounded integers, symbolic (thorough)", hierarchy="every partial order (symbolic)"),
         rule="one state = one method set x class of (hierarchy, priorities, registration order, set orders, extras); "
              "non-trivial = the canonical run entered a method",
